@@ -435,6 +435,22 @@ def g_rules(p: Project, rep: Report):
     rep.check("G-R4", "write_config:nothing-on-dryrun", bool(opens) and not bad, "on a dry run write_config still reaches " + ", ".join(sorted({text(c.func) for n in bad for c in n.calls()})) if bad else "", gloc(p, wc))
     r2 = wcfg.reachable(wcfg.entry.id, edge_filter=assume({"args['dryrun']": False}))
     rep.check("G-R4", "write_config:writes-otherwise", all(n.id in r2 for n in opens), "" if all(n.id in r2 for n in opens) else "write_config never writes", gloc(p, wc))
+    # the user file is re-read BEFORE it is opened for writing: open(..., "w") truncates it, so a reload that comes
+    # after (inside the `with`, or later) reads an empty file and every other section of the file is lost
+    readers = {"USERCFG.read"}
+    om = p.module(OFXGET)
+    for _round in range(3):
+        for f_ in [x for x in om.tree.body if isinstance(x, ast.FunctionDef)]:
+            if f_.name not in readers and any(isinstance(c, ast.Call) and text(c.func) in readers for c in ast.walk(f_)):
+                readers.add(f_.name)
+    reload_nodes = wcfg.nodes_calling(lambda c: text(c.func) in readers)
+    trunc = wcfg.nodes_calling(lambda c: (dotted(c.func) or "").split(".")[-1] == "open" and any(isinstance(a, ast.Constant) and isinstance(a.value, str) and "w" in a.value for a in list(c.args[1:]) + [k.value for k in c.keywords if k.arg == "mode"]))
+    trunc += wcfg.nodes_calling(lambda c: isinstance(c.func, ast.Attribute) and c.func.attr in ("write_text", "write_bytes"))
+    if reload_nodes and trunc:
+        late = [rn for rn in reload_nodes for t_ in trunc if rn.id != t_.id and rn.id in wcfg.reachable(t_.id)]
+        rep.check("G-R4", "write_config:reloads-before-truncating", not late, f"{text(late[0].calls()[0].func) if late and late[0].calls() else 'the reload'} runs after the user file has been opened for writing (mode 'w' truncates it): the reload sees an empty file, so every other server's section, and the stored default CLIENTUID, are gone after --write" if late else "", gloc(p, late[0].stmt) if late else gloc(p, wc))
+    else:
+        rep.note("G-R4 undecided: reload / truncating open of the user file not both found in write_config")
     mcfg = CFG(mk)
     gen = [n for n in mcfg.nodes if isinstance(n.stmt, ast.Assign) and text(n.stmt.targets[0]).replace('"', "'") == "defaults['clientuid']"]
     tests = [n for n in mcfg.nodes if n.kind == "test" and text(n.stmt.test).replace('"', "'") == "'clientuid' not in defaults"]
